@@ -722,3 +722,293 @@ func init() {
 		tokModes[s] = "int"
 	}
 }
+
+// ------------------------------------------------------------------ C09 / C14
+// intOut renders f*mult when that is exactly an integer of small magnitude.
+func intOut(f float64, mult float64) map[string]any {
+	v := f * mult
+	if math.IsNaN(v) || math.IsInf(v, 0) || v != math.Trunc(v) || math.Abs(v) > 2e9 {
+		return map[string]any{"ok": false, "v": 0, "x": exactStr(f)}
+	}
+	return map[string]any{"ok": true, "v": int(v), "x": exactStr(f)}
+}
+
+func xyExtra(p []int, stride int, salt int) geom.Coord {
+	c := geom.Coord{float64(p[0]), float64(p[1])}
+	for k := 2; k < stride; k++ {
+		c = append(c, float64(1000*k+7*salt)+0.5)
+	}
+	return c
+}
+
+func ring1(ps [][]int, stride, salt int) []geom.Coord {
+	out := make([]geom.Coord, len(ps))
+	for i, p := range ps {
+		out[i] = xyExtra(p, stride, salt+i)
+	}
+	return out
+}
+
+func ring2(rs [][][]int, stride, salt int) [][]geom.Coord {
+	out := make([][]geom.Coord, len(rs))
+	for i, r := range rs {
+		out[i] = ring1(r, stride, salt+10*i)
+	}
+	return out
+}
+
+type measurer interface {
+	Area() float64
+	Length() float64
+}
+
+func measureOf(g measurer) map[string]any {
+	out := map[string]any{"pan": ""}
+	ev, msg := call(func() { out["a2"] = intOut(g.Area(), 2) })
+	if ev != "ok" {
+		out["pan"] = "Area: " + msg
+		out["a2"] = map[string]any{"ok": false, "v": 0, "x": "panic"}
+	}
+	ev, msg = call(func() { out["len"] = intOut(g.Length(), 1) })
+	if ev != "ok" {
+		out["pan"] = "Length: " + msg
+		out["len"] = map[string]any{"ok": false, "v": 0, "x": "panic"}
+	}
+	return out
+}
+
+// case {k, l, v}: v holds XY integer coordinates nested as the type requires; extra ordinates are filled with junk.
+func measureHandler(raw json.RawMessage) map[string]any {
+	var c struct {
+		K, L string
+		V    json.RawMessage
+	}
+	must(json.Unmarshal(raw, &c))
+	layout := layoutOf(c.L)
+	stride := layout.Stride()
+	out := map[string]any{"parts": []any{}, "seterr": ""}
+	parts := []any{}
+	var whole measurer
+	fail := func(err error) map[string]any {
+		out["seterr"] = err.Error()
+		out["whole"] = map[string]any{"pan": "", "a2": map[string]any{"ok": false, "v": 0, "x": ""}, "len": map[string]any{"ok": false, "v": 0, "x": ""}}
+		return out
+	}
+	switch c.K {
+	case "PT":
+		v := dec[[]int](c.V)
+		g := geom.NewPoint(layout)
+		if len(v) > 0 {
+			if _, err := g.SetCoords(xyExtra(v, stride, 1)); err != nil {
+				return fail(err)
+			}
+		}
+		whole = g
+	case "MPT":
+		v := dec[[][]int](c.V)
+		cs := make([]geom.Coord, len(v))
+		for i, p := range v {
+			if len(p) > 0 {
+				cs[i] = xyExtra(p, stride, i)
+			}
+		}
+		g := geom.NewMultiPoint(layout)
+		if _, err := g.SetCoords(cs); err != nil {
+			return fail(err)
+		}
+		whole = g
+	case "LS":
+		g := geom.NewLineString(layout)
+		if _, err := g.SetCoords(ring1(dec[[][]int](c.V), stride, 3)); err != nil {
+			return fail(err)
+		}
+		whole = g
+	case "LR":
+		g := geom.NewLinearRing(layout)
+		if _, err := g.SetCoords(ring1(dec[[][]int](c.V), stride, 3)); err != nil {
+			return fail(err)
+		}
+		whole = g
+	case "PG":
+		g := geom.NewPolygon(layout)
+		if _, err := g.SetCoords(ring2(dec[[][][]int](c.V), stride, 5)); err != nil {
+			return fail(err)
+		}
+		whole = g
+		for i := 0; i < g.NumLinearRings(); i++ {
+			parts = append(parts, measureOf(g.LinearRing(i)))
+		}
+	case "MLS":
+		g := geom.NewMultiLineString(layout)
+		if _, err := g.SetCoords(ring2(dec[[][][]int](c.V), stride, 5)); err != nil {
+			return fail(err)
+		}
+		whole = g
+		for i := 0; i < g.NumLineStrings(); i++ {
+			parts = append(parts, measureOf(g.LineString(i)))
+		}
+	case "MPG":
+		v := dec[[][][][]int](c.V)
+		cs := make([][][]geom.Coord, len(v))
+		for i, p := range v {
+			cs[i] = ring2(p, stride, 100*i)
+		}
+		g := geom.NewMultiPolygon(layout)
+		if _, err := g.SetCoords(cs); err != nil {
+			return fail(err)
+		}
+		whole = g
+		for i := 0; i < g.NumPolygons(); i++ {
+			parts = append(parts, measureOf(g.Polygon(i)))
+		}
+	}
+	out["whole"] = measureOf(whole)
+	out["parts"] = parts
+	return out
+}
+
+const cenQ = 256
+
+func cenOut(f func() geom.Coord) map[string]any {
+	out := map[string]any{"pan": "", "x": numOut(math.NaN(), cenQ), "y": numOut(math.NaN(), cenQ), "n": 0}
+	ev, msg := call(func() {
+		c := f()
+		out["n"] = len(c)
+		if len(c) >= 2 {
+			out["x"], out["y"] = numOut(c[0], cenQ), numOut(c[1], cenQ)
+		}
+	})
+	if ev != "ok" {
+		out["pan"] = msg
+	}
+	return out
+}
+
+func shiftRing(ps [][]int, off []int) [][]int {
+	out := make([][]int, len(ps))
+	for i, p := range ps {
+		out[i] = []int{p[0] + off[0], p[1] + off[1]}
+	}
+	return out
+}
+
+// case {kind: "poly"|"lines"|"points", polys|lines|pts (un-shifted integer XY), off: [ox, oy]}:
+// the driver shifts by off, builds the geometries in a layout chosen from the case digest and calls
+// every centroid entry point; for polygons also ring direction and signed area of every ring.
+func centroidHandler(raw json.RawMessage) map[string]any {
+	var c struct {
+		Kind  string
+		Polys [][][][]int
+		Lines [][][]int
+		Pts   [][]int
+		Off   []int
+	}
+	must(json.Unmarshal(raw, &c))
+	salt := 0
+	for _, b := range raw {
+		salt = (salt*31 + int(b)) % 9973
+	}
+	layout := []geom.Layout{geom.XY, geom.XYZ, geom.XYM, geom.XYZM, geom.Layout(5)}[salt%5]
+	stride := layout.Stride()
+	out := map[string]any{"l": layoutName(layout)}
+	res := []any{}
+	switch c.Kind {
+	case "poly":
+		var polys []*geom.Polygon
+		mp := geom.NewMultiPolygon(layout)
+		rings := []any{}
+		for i, p := range c.Polys {
+			var rs [][][]int
+			for _, r := range p {
+				rs = append(rs, shiftRing(r, c.Off))
+			}
+			pg := geom.NewPolygon(layout)
+			if _, err := pg.SetCoords(ring2(rs, stride, 10*i)); err != nil {
+				panic("harness: " + err.Error())
+			}
+			polys = append(polys, pg)
+			if err := mp.Push(pg); err != nil {
+				panic("harness: " + err.Error())
+			}
+			for j := 0; j < pg.NumLinearRings(); j++ {
+				fc := pg.LinearRing(j).FlatCoords()
+				ro := map[string]any{"ccw": false, "pan": ""}
+				ev, msg := call(func() { ro["ccw"] = xy.IsRingCounterClockwise(layout, fc) })
+				if ev != "ok" {
+					ro["pan"] = msg
+				}
+				ev, msg = call(func() { ro["sa2"] = intOut(xy.SignedArea(layout, fc), 2) })
+				if ev != "ok" {
+					ro["pan"] = msg
+					ro["sa2"] = map[string]any{"ok": false, "v": 0, "x": "panic"}
+				}
+				rings = append(rings, ro)
+			}
+		}
+		res = append(res,
+			cenOut(func() geom.Coord { return xy.PolygonsCentroid(polys[0], polys[1:]...) }),
+			cenOut(func() geom.Coord { return xy.MultiPolygonCentroid(mp) }),
+			cenOut(func() geom.Coord { c, _ := xy.Centroid(mp); return c }))
+		if len(polys) == 1 {
+			res = append(res, cenOut(func() geom.Coord { c, _ := xy.Centroid(polys[0]); return c }))
+		}
+		out["rings"] = rings
+	case "lines":
+		var lines []*geom.LineString
+		var lrs []*geom.LinearRing
+		ml := geom.NewMultiLineString(layout)
+		for i, l := range c.Lines {
+			ls := geom.NewLineString(layout)
+			if _, err := ls.SetCoords(ring1(shiftRing(l, c.Off), stride, 10*i)); err != nil {
+				panic("harness: " + err.Error())
+			}
+			lines = append(lines, ls)
+			lr := geom.NewLinearRing(layout)
+			if _, err := lr.SetCoords(ring1(shiftRing(l, c.Off), stride, 10*i)); err != nil {
+				panic("harness: " + err.Error())
+			}
+			lrs = append(lrs, lr)
+			if err := ml.Push(ls); err != nil {
+				panic("harness: " + err.Error())
+			}
+		}
+		res = append(res,
+			cenOut(func() geom.Coord { return xy.LinesCentroid(lines[0], lines[1:]...) }),
+			cenOut(func() geom.Coord { return xy.MultiLineCentroid(ml) }),
+			cenOut(func() geom.Coord { return xy.LinearRingsCentroid(lrs[0], lrs[1:]...) }),
+			cenOut(func() geom.Coord { c, _ := xy.Centroid(ml); return c }))
+		if len(lines) == 1 {
+			res = append(res, cenOut(func() geom.Coord { c, _ := xy.Centroid(lines[0]); return c }),
+				cenOut(func() geom.Coord { c, _ := xy.Centroid(lrs[0]); return c }))
+		}
+	case "points":
+		var pts []*geom.Point
+		mp := geom.NewMultiPoint(layout)
+		var flat []float64
+		for i, p := range shiftRing(c.Pts, c.Off) {
+			pt := geom.NewPoint(layout)
+			if _, err := pt.SetCoords(xyExtra(p, stride, i)); err != nil {
+				panic("harness: " + err.Error())
+			}
+			pts = append(pts, pt)
+			if err := mp.Push(pt); err != nil {
+				panic("harness: " + err.Error())
+			}
+			flat = append(flat, xyExtra(p, stride, i)...)
+		}
+		res = append(res,
+			cenOut(func() geom.Coord { return xy.PointsCentroid(pts[0], pts[1:]...) }),
+			cenOut(func() geom.Coord { return xy.MultiPointCentroid(mp) }),
+			cenOut(func() geom.Coord { return xy.PointsCentroidFlat(layout, flat) }),
+			cenOut(func() geom.Coord { c, _ := xy.Centroid(mp); return c }))
+	}
+	out["res"] = res
+	return out
+}
+
+func init() {
+	handlers["measure"] = measureHandler
+	handlers["centroid"] = centroidHandler
+	tokModes["measure"] = "int"
+	tokModes["centroid"] = "int"
+}
